@@ -293,10 +293,22 @@ def erase_indices(path: str) -> str:
 
 
 def diff_signature(d) -> str:
-    p, kind = d[0], d[1]
-    # keep only the last two path components: enough to name the root cause, few enough to bucket
-    comps = erase_indices(p).split(".")
-    return f"{kind}:{'.'.join(comps[-2:])}"
+    """bucket key for a difference: kind + what differs, without the path (one root cause = one bucket)"""
+    p, kind, e, g = d
+    last = erase_indices(p).split(".")[-1]
+    if kind == "position":
+        which = []
+        if e[:2] != g[:2]:
+            which.append("start")
+        if e[2:] != g[2:]:
+            which.append("end")
+        node = last[last.index("<") :] if "<" in last else ""
+        return f"position:{node}:{'+'.join(which)}"
+    if kind == "class":
+        return f"class:{last}:{e}->{g}"
+    if kind in ("absent-field", "extra-field", "not-a-list", "length"):
+        return f"{kind}:{last}"
+    return f"value:{last}"
 
 
 def node_classes(tree) -> set:
